@@ -23,7 +23,7 @@ namespace Pest
 namespace Front
 
 /-- a complete block comment: `/*`, a body, and the `*/` that closes it — whatever follows.
-    (Stated with the scanner's own nesting counter `blockBody`; `IsBlock.flat` and `BB` in
+    (Stated with the scanner's own nesting counter `blockBody`; `TRT.isBlock_flat`, `TRT.BB` and `TRT.isBlock_of_BB` in
     Lemmas/FrontScanTrivia.lean give direct descriptions.) -/
 def IsBlock (c : Text) : Prop :=
   ∃ body, c = 47 :: 42 :: body ∧ ∀ tl, blockBody 0 (body ++ tl) = some body.length
